@@ -98,6 +98,47 @@ fn build_node(t: &JoinTrace) -> StreamJoinNode {
     )
 }
 
+/// the same join with the two streams swapped (its left stream is "right")
+fn mirror_node(t: &JoinTrace) -> StreamJoinNode {
+    let cond = t.cond;
+    StreamJoinNode::new(
+        "right".to_string(),
+        "left".to_string(),
+        JoinType::Inner,
+        JoinStrategy::TimeWindow { duration: Duration::from_secs(t.window_secs) },
+        Box::new(|e: &StreamEvent| match e.data.get("k") {
+            Some(Value::String(s)) => Some(s.clone()),
+            _ => None,
+        }),
+        Box::new(|e: &StreamEvent| match e.data.get("k") {
+            Some(Value::String(s)) => Some(s.clone()),
+            _ => None,
+        }),
+        // its "left" argument is an event of the right stream
+        Box::new(move |r: &StreamEvent, l: &StreamEvent| match cond {
+            Cond::Always => true,
+            Cond::PayloadLe => payload(l) <= payload(r),
+            Cond::PayloadEq => payload(l) == payload(r),
+        }),
+    )
+}
+
+impl Sut {
+    /// what the mirrored join emitted since the last call, as (left-stream event, right-stream event) ids
+    fn take_mirror(&mut self) -> Vec<(String, String)> {
+        match self {
+            Sut::Managed(_, _, ms) => std::mem::take(&mut *ms.lock().unwrap())
+                .into_iter()
+                .filter_map(|je| match (je.left, je.right) {
+                    (Some(r), Some(l)) => Some((l.id, r.id)),
+                    _ => None,
+                })
+                .collect(),
+            _ => Vec::new(),
+        }
+    }
+}
+
 fn cond_holds(c: Cond, l: &Ev, r: &Ev) -> bool {
     match c {
         Cond::Always => true,
@@ -125,7 +166,7 @@ fn reference(t: &JoinTrace) -> BTreeSet<(usize, usize)> {
 
 enum Sut {
     Direct(StreamJoinNode),
-    Managed(StreamJoinManager, Arc<Mutex<Vec<JoinedEvent>>>),
+    Managed(StreamJoinManager, Arc<Mutex<Vec<JoinedEvent>>>, Arc<Mutex<Vec<JoinedEvent>>>),
 }
 
 impl Sut {
@@ -133,6 +174,7 @@ impl Sut {
         let node = build_node(t);
         if t.via_manager {
             let sink: Arc<Mutex<Vec<JoinedEvent>>> = Arc::new(Mutex::new(Vec::new()));
+            let mirror_sink: Arc<Mutex<Vec<JoinedEvent>>> = Arc::new(Mutex::new(Vec::new()));
             let s2 = sink.clone();
             let mut m = StreamJoinManager::new();
             m.register_join(
@@ -140,7 +182,12 @@ impl Sut {
                 node,
                 Box::new(move |je| s2.lock().unwrap().push(je)),
             );
-            Sut::Managed(m, sink)
+            // a second join on the same two streams with the sides swapped: the manager has to route
+            // every event to both, as left of one and right of the other
+            let mirror = mirror_node(t);
+            let s3 = mirror_sink.clone();
+            m.register_join("mirror".to_string(), mirror, Box::new(move |je| s3.lock().unwrap().push(je)));
+            Sut::Managed(m, sink, mirror_sink)
         } else {
             Sut::Direct(node)
         }
@@ -148,7 +195,7 @@ impl Sut {
     fn left(&mut self, e: StreamEvent) -> Vec<JoinedEvent> {
         match self {
             Sut::Direct(n) => n.process_left(e),
-            Sut::Managed(m, sink) => {
+            Sut::Managed(m, sink, _) => {
                 m.process_event(e);
                 std::mem::take(&mut *sink.lock().unwrap())
             }
@@ -157,7 +204,7 @@ impl Sut {
     fn right(&mut self, e: StreamEvent) -> Vec<JoinedEvent> {
         match self {
             Sut::Direct(n) => n.process_right(e),
-            Sut::Managed(m, sink) => {
+            Sut::Managed(m, sink, _) => {
                 m.process_event(e);
                 std::mem::take(&mut *sink.lock().unwrap())
             }
@@ -166,7 +213,7 @@ impl Sut {
     fn wm(&mut self, w: i64) -> Vec<JoinedEvent> {
         match self {
             Sut::Direct(n) => n.update_watermark(w),
-            Sut::Managed(m, sink) => {
+            Sut::Managed(m, sink, _) => {
                 m.update_watermark("left", w);
                 std::mem::take(&mut *sink.lock().unwrap())
             }
@@ -229,6 +276,8 @@ fn run_schedule(
     let p = reference(t);
     let mut sut = Sut::new(t);
     let mut em = Emitted { pairs: BTreeMap::new() };
+    // pairs emitted by the manager's second, mirrored join (manager runs only)
+    let mut mirror: BTreeMap<(usize, usize), u32> = BTreeMap::new();
     let (mut li, mut ri) = (0usize, 0usize);
     // arrival step of each event, and watermark ticks as (step, w)
     let mut l_arr: Vec<usize> = Vec::new();
@@ -281,6 +330,13 @@ fn run_schedule(
             }
         };
         collect(out, &mut em, step, site)?;
+        for (lid, rid) in sut.take_mirror() {
+            if let (Some(a), Some(b)) = (parse_id(&lid, "left"), parse_id(&rid, "right")) {
+                *mirror.entry((a, b)).or_insert(0) += 1;
+            } else {
+                return Err(Violation::new(PROP, "join.no-false", "StreamJoinManager (second join, sides swapped)", "pair-sides-swapped-or-foreign", format!("the mirrored join emitted ({lid}, {rid})"), step));
+            }
+        }
         // no-false and once are prefix-closed: check after every step
         for ((l, r), n) in &em.pairs {
             if !p.contains(&(*l, *r)) {
@@ -356,6 +412,26 @@ fn run_schedule(
             ));
         }
     }
+    // the mirrored join of the manager must deliver the same pairs (it sees the same arrivals and ticks)
+    if t.via_manager {
+        let msite = "StreamJoinManager (second join, sides swapped)";
+        for ((l, r), n) in &mirror {
+            if !p.contains(&(*l, *r)) {
+                return Err(Violation::new(PROP, "join.no-false", msite, "mirrored-join-false-pair", format!("the mirrored join emitted (left{l}, right{r}), which is not in the reference join"), schedule.len()));
+            }
+            if *n > 1 {
+                return Err(Violation::new(PROP, "join.once", msite, "mirrored-join-duplicate", format!("the mirrored join emitted (left{l}, right{r}) {n} times"), schedule.len()));
+            }
+        }
+        for pr in &required {
+            if !mirror.contains_key(pr) {
+                return Err(Violation::new(PROP, if has_wm { "join.required" } else { "join.exact" }, msite, "mirrored-join-missing-pair", format!("the manager's second join (sides swapped) never emitted (left{}, right{}), which is in the reference join and could not have been evicted", pr.0, pr.1), schedule.len()));
+            }
+        }
+        if let Some(o) = obs.as_deref_mut() {
+            o.count("probe.manager_with_two_joins");
+        }
+    }
     Ok((em, required))
 }
 
@@ -373,7 +449,7 @@ impl World for JoinWorld {
                    really interleaves the two sources; distinct = distinct fingerprints of (sequences, merge, ticks, \
                    emitted multiset)"
                 .into(),
-            real: vec!["StreamJoinNode", "StreamJoinManager (half of the runs)", "StreamEvent"],
+            real: vec!["StreamJoinNode", "StreamJoinManager (half of the runs; with a second join on the same streams, sides swapped)", "StreamEvent"],
             stub: vec!["two event sources", "SimNet merge scheduler", "watermark ticker", "hash seed (getrandom seam)"],
             assumptions: vec![
                 "window compared in the unit the implementation documents (duration.as_secs() against raw stamps)".into(),
@@ -386,6 +462,7 @@ impl World for JoinWorld {
                 "fault.late_arrival_below_watermark",
                 "probe.pair_first_member_evictable",
                 "probe.schedule_free_compared",
+                "probe.manager_with_two_joins",
             ],
             quick_runs: 1_500_000,
             thorough_runs: 40_000_000,
